@@ -87,7 +87,8 @@ class Tokenizer:
             return False
         if tok.type in {Token.NL, Token.COMMENT, Token.WS}:
             return True
-        if tok.type == Token.ERRORTOKEN and tok.string.isspace():
+        if tok.type == Token.ERRORTOKEN and tok.string in (" ", "\t", "\f", "\r"):
+            # only the blanks Python itself allows between tokens; U+00A0, U+000B, U+2003... are errors
             return True
         if tok.type == Token.NEWLINE and self._tokens and self._tokens[-1].type == Token.NEWLINE:
             return True
